@@ -1,4 +1,5 @@
 import Tea.Proofs.RenderBytes
+import Tea.Proofs.PaintSources
 import Tea.Render.Fps
 /-
 C19 — Rendering is economical: no change, no output; bounded frame rate.
@@ -23,7 +24,9 @@ Styled text: the bounds count BYTES WRITTEN, so a line enters them with its raw 
 dropped), which never makes it longer in bytes (`truncateLine_length_le`), so `l.length`
 bounds what is written for it in every case.
 Only definitions used in statements and property theorems live here; helper lemmas are in
-`Tea/Proofs/RenderBytes.lean`.
+`Tea/Proofs/RenderBytes.lean` and, for section 7 (which operations paint, how many steps of a
+history paint), in `Tea/Proofs/PaintSources.lean` — which also holds the definitions that section
+states its theorems with: `paints`, `paintSteps`, `isFlush`, `isStop`, `isPrintLine`.
 -/
 namespace Tea.Props.C19
 open Tea Tea.VT Tea.Render
@@ -306,7 +309,81 @@ theorem C19_cache_is_last_frame (r : RState) (h : r.buf ≠ []) (h' : r.buf ≠ 
   have : (write (flush r).1 s).lastLines = some (frameLines r) := hc
   rw [this]
 
-/-! ### 7. non-vacuity -/
+/-! ### 7. which operations paint; the renders of a history
+
+`TermOp.text` is the only terminal operation that carries content bytes (view lines and printed
+lines); `paints ops` says that `ops` contains one. The ticker's tick is the ROp `.flush`.
+Definitions (`Tea/Proofs/PaintSources.lean`):
+
+  `paints ops = ops.any (fun o => match o with | .text _ => true | _ => false)`
+  `paintSteps r []        = 0`
+  `paintSteps r (o :: os) = (if paints (step r o).2 then 1 else 0) + paintSteps (step r o).1 os`
+  `isFlush`, `isStop`, `isPrintLine : ROp → Bool` recognise `.flush`, `.stop`, `.printLine _`. -/
+
+/-- Only three operations can paint: the tick (`flush`), the final `stop`, and `enterAlt` — the
+last only on the main screen with a printed line pending AND a new view pending (it then brings
+the main screen up to date with one ordinary flush before switching). A write, a print, a resize,
+a repaint request, ClearScreen, every mode command, ExitAltScreen, kill and the window title never
+paint. -/
+theorem C19_paint_sources (r : RState) (o : ROp) (h : paints (step r o).2 = true) :
+    o = .flush ∨ o = .stop ∨
+      (o = .enterAlt ∧ r.altActive = false ∧ r.queued ≠ [] ∧ r.buf ≠ [] ∧ r.buf ≠ r.lastRender) :=
+  step_paint_sources r o h
+
+/-- A flush paints only when a view is pending that differs from the one on screen (the guard of
+`flush`'s early return; compare `C19_noop`). -/
+theorem C19_paint_needs_pending (r : RState) (h : paints (flush r).2 = true) :
+    r.buf ≠ [] ∧ r.buf ≠ r.lastRender :=
+  flush_paints_pending h
+
+/-- the same for the final flush of `stop` -/
+theorem C19_stop_paint_needs_pending (r : RState) (h : paints (stop r).2 = true) :
+    r.buf ≠ [] ∧ r.buf ≠ r.lastRender :=
+  flush_paints_pending (stop_paints r ▸ h)
+
+/-- The `enterAlt` clause of `C19_paint_sources` is exact: under these conditions it does paint. -/
+theorem C19_enterAlt_paints_iff (r : RState) :
+    paints (step r .enterAlt).2 = true ↔
+      (r.altActive = false ∧ r.queued ≠ [] ∧ r.buf ≠ [] ∧ r.buf ≠ r.lastRender) := by
+  constructor
+  · intro h
+    rcases C19_paint_sources r .enterAlt h with h | h | ⟨_, h⟩
+    · exact ROp.noConfusion h
+    · exact ROp.noConfusion h
+    · exact h
+  · rintro ⟨ha, hq, h1, h2⟩
+    exact enterAlt_paints_of_queued ha hq h1 h2
+
+/-- Counting over ANY history, from ANY state: the painting steps — plus one if a printed line is
+still pending at the end — are bounded by the ticks, the stops and the printLine operations of the
+history, plus one if a printed line was pending at the start. (Potential argument: a painting
+`enterAlt` needs a non-empty queue and leaves it empty; only `printLine` makes an empty queue
+non-empty.) -/
+theorem C19_paint_count (r : RState) (ops : List ROp) :
+    paintSteps r ops + (if (run r ops).1.queued = [] then 0 else 1)
+      ≤ ops.countP isFlush + ops.countP isStop + ops.countP isPrintLine
+        + (if r.queued = [] then 0 else 1) :=
+  paintSteps_le r ops
+
+/-- From a state with nothing queued, the renders of a history are bounded by its ticks + stops +
+printed-line operations, however many writes, mode commands and alt-screen switches it contains:
+the ticks and the final `stop` aside, an extra render needs a line printed since the last render. -/
+theorem C19_renders_bounded (r : RState) (hq : r.queued = []) (ops : List ROp) :
+    paintSteps r ops ≤ ops.countP isFlush + ops.countP isStop + ops.countP isPrintLine := by
+  have h := C19_paint_count r ops
+  rw [if_pos hq] at h
+  omega
+
+/-- Without prints, renders happen at ticks (and stops) only: at most one per frame interval. -/
+theorem C19_renders_only_at_ticks (r : RState) (hq : r.queued = []) (ops : List ROp)
+    (hnp : ∀ o ∈ ops, (∀ b, o ≠ .printLine b)) :
+    paintSteps r ops ≤ ops.countP isFlush + ops.countP isStop := by
+  have h := C19_renders_bounded r hq ops
+  have h0 : ops.countP isPrintLine = 0 :=
+    countP_eq_zero_of_forall isPrintLine ops (fun o ho => isPrintLine_false_of_ne (hnp o ho))
+  omega
+
+/-! ### 8. non-vacuity -/
 
 /-- a renderer 20 columns wide showing the three lines aaa / bbb / ccc -/
 def r0 : RState := (flush (write { width := 20, height := 10 } [97,97,97,10,98,98,98,10,99,99,99])).1
@@ -357,6 +434,38 @@ example :
     lineWidth (truncateLine 5 [27,91,49,109,97,98,99,100,101,102,103,104,27,91,48,109]) = 5 ∧
     (serializeAll (paintLineOps { width := 5, height := 10 } false false 1 0
       [27,91,49,109,97,98,99,100,101,102,103,104,27,91,48,109])).length = 14 := by decide
+
+/-- a history in which `enterAlt` paints: a view is rendered at the tick, a line is printed, a new
+view is written, and entering the alt screen first brings the main screen up to date (printed
+line `p`, then the view `b`) — two painting steps with a single tick; the bound of
+`C19_renders_bounded` is 1 tick + 0 stops + 1 printLine = 2 -/
+def hAlt : List ROp := [.write [97], .flush, .printLine [112], .write [98], .enterAlt]
+
+example : (run { width := 20, height := 10 } hAlt).2 =
+    [[], [.cr, .text [97], .el0, .cub 20], [], [],
+     [.text [112], .el0, .cr, .lf, .cr, .text [98], .el0, .cub 20,
+      .decset 1049, .ed2, .home, .decset 25]] := by decide
+
+example : paintSteps { width := 20, height := 10 } hAlt = 2 ∧ hAlt.countP isFlush = 1 ∧
+    hAlt.countP isStop = 0 ∧ hAlt.countP isPrintLine = 1 := by decide
+
+/-- the bound attained with 3: twelve operations (writes, mode commands, three alt-screen
+switches), and exactly the tick, the flushing `enterAlt` and the `stop` paint:
+3 = 1 tick + 1 stop + 1 printLine. The second `enterAlt` (nothing printed since) does not paint. -/
+def hThree : List ROp :=
+  [.write [97], .write [97,97], .hideCursor, .flush, .printLine [112], .mouseCell, .write [98],
+   .enterAlt, .write [99], .exitAlt, .enterAlt, .stop]
+
+example : paintSteps { width := 20, height := 10 } hThree = 3 ∧
+    hThree.countP isFlush + hThree.countP isStop + hThree.countP isPrintLine = 3 ∧
+    (run { width := 20, height := 10 } hThree).1.queued = [] := by decide
+
+/-- which steps of that history paint -/
+example : (run { width := 20, height := 10 } hThree).2.map paints =
+    [false, false, false, true, false, false, false, true, false, false, false, true] := by decide
+
+/-- without a pending print `enterAlt` does not paint, even with a new view pending -/
+example : paints (step (write r0 [120]) .enterAlt).2 = false := by decide
 
 example : clampFPS 0 = 60 ∧ clampFPS 30 = 30 ∧ clampFPS 1000 = 120 ∧ clampFPS (-5) = 60 := by decide
 example : framerateNs 60 = 16666666 ∧ framerateNs 120 = 8333333 ∧ framerateNs 1 = 1000000000 := by decide
